@@ -7,7 +7,7 @@ import (
 	"github.com/goplus/gogen/verif/internal/h"
 )
 
-var allCats = []string{"operator", "shift", "conv", "assign", "compare", "builtin", "access"}
+var allCats = []string{"operator", "shift", "conv", "assign", "compare", "builtin", "access", "constgroup"}
 
 var c01def = &atomCheckDef{id: "C01", cats: allCats, cfgs: []string{"default", "xgo"}, per: 1, judge: judgeC01, noComp: true}
 
